@@ -341,22 +341,23 @@ func reconcileBody(r *explore.Run, rep *report.R, scenario string, ao allowOpt, 
 		direct, _ = roles.VerySecureValidator(context.Background(), ro.rules...)
 	}
 
+	v := &verdict{}
 	class := "accepted"
 	switch {
 	case ao.configured && !ao.exists:
 		class = "allow-list-missing"
 		if len(writes) > 0 {
-			r.Failf("reconcile/role-written/allow-list-missing", "the allow-list ClusterRole does not exist, yet the reconcile wrote ClusterRoles: %v", writes)
+			v.failf("reconcile/role-written/allow-list-missing", "the allow-list ClusterRole does not exist, yet the reconcile wrote ClusterRoles: %v", writes)
 		}
 	case len(direct) > 0:
 		class = "rejected"
 		if len(writes) > 0 {
-			r.Failf("reconcile/role-written/after-rejection", "the validator rejects %v of requests %s (allow-list %s), yet the reconcile wrote ClusterRoles: %v", direct, rulesString(ro.rules), rulesString(allowRules), writes)
+			v.failf("reconcile/role-written/after-rejection", "the validator rejects %v of requests %s (allow-list %s), yet the reconcile wrote ClusterRoles: %v", direct, rulesString(ro.rules), rulesString(allowRules), writes)
 		}
 	case uncovered != nil:
 		class = "uncovered"
 		if len(writes) > 0 {
-			r.Failf("reconcile/role-written/uncovered-request/"+excessDimension(allowRules, *uncovered), "requests %s grant %s which allow-list %s does not, yet the reconcile wrote ClusterRoles: %v", rulesString(ro.rules), *uncovered, rulesString(allowRules), writes)
+			v.failf("reconcile/role-written/uncovered-request/"+excessDimension(allowRules, *uncovered), "requests %s grant %s which allow-list %s does not, yet the reconcile wrote ClusterRoles: %v", rulesString(ro.rules), *uncovered, rulesString(allowRules), writes)
 		}
 	}
 
@@ -406,9 +407,10 @@ func reconcileBody(r *explore.Run, rep *report.R, scenario string, ao allowOpt, 
 				if len(allowed) == 0 {
 					reason = "no-resources"
 				}
-				r.Failf(kind+"/stale-grant-kept/"+reason, "role %s, left by an earlier reconcile when a same-org family member owned widgets.b.org, grants %s; no present revision that counts as family owns that now (self owns %v, family label %q, members %s) and this reconcile wrote nothing, so the grant is never withdrawn", name, *q, ownedCRDs(self.refs), self.family, describeMembers(members))
+				class = "accepted/stale-grant-kept"
+				v.failf(kind+"/stale-grant-kept/"+reason, "role %s, left by an earlier reconcile when a same-org family member owned widgets.b.org, grants %s; no present revision that counts as family owns that now (self owns %v, family label %q, members %s) and this reconcile wrote nothing, so the grant is never withdrawn", name, *q, ownedCRDs(self.refs), self.family, describeMembers(members))
 			}
-			r.Failf(kind+"/exceeds/"+classify(*q), "role %s with rules %s grants %s; allowed is only %s (self %s label %q owns %v; default registry %q; members %s)", name, rulesString(cr.Rules), *q, rulesString(upper), self.source, self.family, ownedCRDs(self.refs), defReg, describeMembers(members))
+			v.failf(kind+"/exceeds/"+classify(*q), "role %s with rules %s grants %s; allowed is only %s (self %s label %q owns %v; default registry %q; members %s)", name, rulesString(cr.Rules), *q, rulesString(upper), self.source, self.family, ownedCRDs(self.refs), defReg, describeMembers(members))
 		}
 		check("system-role", sysName, allowedSystemRules(allowed, ro.rules))
 		check("aggregate-role", editName, crdRules(allowed))
@@ -421,8 +423,8 @@ func reconcileBody(r *explore.Run, rep *report.R, scenario string, ao allowOpt, 
 	} else {
 		count("reconcile_nothing_written")
 	}
-	counters["reconcile_family_member_admitted"] += admitted
-	counters["reconcile_family_member_refused"] += refused
+	countN("reconcile_family_member_admitted", admitted)
+	countN("reconcile_family_member_refused", refused)
 	sysRules := "<none>"
 	if sys != nil {
 		sysRules = rulesString(sys.Rules)
@@ -438,10 +440,13 @@ func reconcileBody(r *explore.Run, rep *report.R, scenario string, ao allowOpt, 
 	if consulted || len(ro.rules) > 0 {
 		nt = report.Hash(scenario, r.Choices)
 	}
-	rep.Eval(scenario, outcome, nt)
-	if consulted && len(writes) > 0 && rep.WantSample() {
-		rep.Sample(map[string]any{"scenario": scenario, "self": self.source, "default_registry": defReg, "members": describeMembers(members), "class": class, "writes": writes, "system_role": sysRules, "choices": append([]int{}, r.Choices...)})
+	eval(rep, r, scenario, outcome, nt)
+	if consulted && refused > 0 && len(writes) > 0 {
+		sample(rep, scenario, func() map[string]any {
+			return map[string]any{"scenario": scenario, "self": self.source, "default_registry": defReg, "members": describeMembers(members), "class": class, "writes": writes, "system_role": sysRules, "choices": append([]int{}, r.Choices...)}
+		})
 	}
+	v.raise(r)
 }
 
 func describeMembers(ms []revision) string {
@@ -497,18 +502,19 @@ func bindingScenario(t *testing.T, rep *report.R) report.Scenario {
 		out := xrh.Reconcile(binding.NewReconciler(fakeMgr{c: c}), types.NamespacedName{Name: self.name})
 		r.Logf("reconcile: err=%v", out.Err)
 		sysName := "crossplane:provider:" + self.name + ":system"
+		v := &verdict{}
 		var seen []string
 		for _, u := range s.All(rbacv1.SchemeGroupVersion.WithKind("ClusterRoleBinding").GroupKind()) {
 			crb := &rbacv1.ClusterRoleBinding{}
 			s.PeekInto(simkube.KeyOf(u), crb)
 			if crb.RoleRef.Kind != "ClusterRole" || crb.RoleRef.APIGroup != rbacv1.GroupName || crb.RoleRef.Name != sysName {
-				r.Failf("binding/wrong-role", "ClusterRoleBinding %s binds role %+v, expected only the revision's own system role %s", crb.GetName(), crb.RoleRef, sysName)
+				v.failf("binding/wrong-role", "ClusterRoleBinding %s binds role %+v, expected only the revision's own system role %s", crb.GetName(), crb.RoleRef, sysName)
 			}
 			for _, sub := range crb.Subjects {
 				id := sub.Namespace + "/" + sub.Name
 				seen = append(seen, id)
 				if sub.Kind != "ServiceAccount" || !ownedSA[id] {
-					r.Failf("binding/foreign-subject", "ClusterRoleBinding %s binds subject %+v which is not the service account of a deployment owned by the revision (owned: %v)", crb.GetName(), sub, sortedKeys(ownedSA))
+					v.failf("binding/foreign-subject", "ClusterRoleBinding %s binds subject %+v which is not the service account of a deployment owned by the revision (owned: %v)", crb.GetName(), sub, sortedKeys(ownedSA))
 				}
 			}
 		}
@@ -517,7 +523,13 @@ func bindingScenario(t *testing.T, rep *report.R) report.Scenario {
 		if len(ownedSA) > 0 && state == 0 {
 			nt = report.Hash(name, r.Choices)
 		}
-		rep.Eval(name, report.Hash(state, seen, len(effectiveWrites(s, "ClusterRoleBinding"))), nt)
+		eval(rep, r, name, report.Hash(state, seen, len(effectiveWrites(s, "ClusterRoleBinding"))), nt)
+		if nt != "" {
+			sample(rep, name, func() map[string]any {
+				return map[string]any{"scenario": name, "owned_service_accounts": sortedKeys(ownedSA), "bound_subjects": seen, "choices": append([]int{}, r.Choices...)}
+			})
+		}
+		v.raise(r)
 	}}
 }
 
@@ -587,12 +599,14 @@ func xrdScenario(t *testing.T, rep *report.R) report.Scenario {
 			allowedRes = append(allowedRes, claim, claim+"/status", claim+"/finalizers")
 		}
 		upper := []rbacv1.PolicyRule{resRule([]string{group}, allowedRes, nil, []string{"*"})}
+		v := &verdict{}
 		var all []string
 		if !deleting {
 			for i, n := range names {
 				cr := storedRole(s, n)
 				if cr == nil {
-					r.Failf("xrd-role/missing", "role %s was not created for XRD %s (err %v)", n, xrd.GetName(), out.Err)
+					v.failf("xrd-role/missing", "role %s was not created for XRD %s (err %v)", n, xrd.GetName(), out.Err)
+					continue
 				}
 				all = append(all, rulesString(cr.Rules))
 				if q := firstExcess(xrdUniverse, cr.Rules, upper); q != nil {
@@ -603,7 +617,7 @@ func xrdScenario(t *testing.T, rep *report.R) report.Scenario {
 					case q.res == plural || (claim != "" && q.res == claim):
 						what = "other-subresource"
 					}
-					r.Failf("xrd-role/exceeds/"+what, "role %s with rules %s grants %s; an XRD's roles may name only %v in group %s", n, rulesString(cr.Rules), *q, allowedRes, group)
+					v.failf("xrd-role/exceeds/"+what, "role %s with rules %s grants %s; an XRD's roles may name only %v in group %s", n, rulesString(cr.Rules), *q, allowedRes, group)
 				}
 				need := []creq{{group: group, res: plural, verb: "get", name: "x"}}
 				if claim != "" && i < 3 { // the browse role is documented to cover composites only
@@ -611,7 +625,7 @@ func xrdScenario(t *testing.T, rep *report.R) report.Scenario {
 				}
 				for _, q := range need {
 					if !grants(cr.Rules, q) {
-						r.Failf("xrd-role/missing-grant", "role %s with rules %s does not grant %s", n, rulesString(cr.Rules), q)
+						v.failf("xrd-role/missing-grant", "role %s with rules %s does not grant %s", n, rulesString(cr.Rules), q)
 					}
 				}
 			}
@@ -621,9 +635,12 @@ func xrdScenario(t *testing.T, rep *report.R) report.Scenario {
 		if !deleting {
 			nt = report.Hash(name, r.Choices)
 		}
-		rep.Eval(name, report.Hash(deleting, len(writes), all), nt)
-		if nt != "" && claim != "" && rep.WantSample() {
-			rep.Sample(map[string]any{"scenario": name, "xrd": xrd.GetName(), "claim": claim, "roles": all, "choices": append([]int{}, r.Choices...)})
+		eval(rep, r, name, report.Hash(deleting, len(writes), all), nt)
+		if nt != "" && claim != "" {
+			sample(rep, name, func() map[string]any {
+				return map[string]any{"scenario": name, "xrd": xrd.GetName(), "claim": claim, "roles": all, "choices": append([]int{}, r.Choices...)}
+			})
 		}
+		v.raise(r)
 	}}
 }
